@@ -425,7 +425,7 @@ func (ig *ingest) roundRules(e *Effect) {
 			}
 		}
 		ev.Verdict("H6.cb.height", props("C13"), "the height reported to the new-round callback is the height this round has just set (not a later re-read that a nested round may already have advanced)", "", okH, "height argument is "+PP(ev.Arg(1)))
-	case e.Kind == "call" && e.Entry == idE4 && len(e.Path) == 1 && ig.startsRound(e):
+	case e.Kind == "call" && e.Entry == idE4 && len(e.Path) <= 3 && ig.startsRound(e) && ig.hasBlockAndFlagParams(e) && !pathHas(e, "onCommit"):
 		// the call by which the sync handler starts a round (whatever it is called and however its arguments are
 		// packed): the synced block is its interfaces.Block argument or the block field of its *blockWithProof
 		// argument, canBeFirstLeader its bool argument
@@ -1532,4 +1532,26 @@ func sameChanValue(x, y ssa.Value) bool {
 		}
 	}
 	return false
+}
+
+// hasBlockAndFlagParams: the called function takes the synced block (or the hand-off message carrying it) and a bool.
+func (ig *ingest) hasBlockAndFlagParams(e *Effect) bool {
+	ci, ok := e.Instr.(ssa.CallInstruction)
+	if !ok {
+		return false
+	}
+	sc := ci.Common().StaticCallee()
+	if sc == nil {
+		return false
+	}
+	hasBlk, hasFlag := false, false
+	for _, p := range sc.Params {
+		switch ts := typeShort(p.Type()); {
+		case ts == "interfaces.Block" || ts == syncMsgType:
+			hasBlk = true
+		case isBoolType(p.Type()):
+			hasFlag = true
+		}
+	}
+	return hasBlk && hasFlag
 }
